@@ -272,9 +272,10 @@ func (a *AvahiProvider) avahiCallback(event avahi.Event) {
 
 // attempt to reconnect to the avahi daemon endlessly
 func (a *AvahiProvider) attemptReconnect(cb api.MdnsResolveCB, serviceData *mdnsServiceData, shutdownCount uint) {
+	handedOver := false
 	defer func() {
 		a.mux.Lock()
-		if a.shutdownCount == shutdownCount {
+		if a.shutdownCount == shutdownCount && !handedOver {
 			a.reconnecting = false
 		}
 		a.mux.Unlock()
@@ -298,6 +299,11 @@ func (a *AvahiProvider) attemptReconnect(cb api.MdnsResolveCB, serviceData *mdns
 			return
 		}
 		started := a.start(true, cb)
+		if started {
+			// the new connection stands: a disconnect reported from now on is about it and needs a loop of its own
+			a.reconnecting = false
+			handedOver = true
+		}
 		a.mux.Unlock()
 		if !started {
 			continue
